@@ -485,6 +485,173 @@ fn c07(cx: &mut Cx, voxsets: &str, quick: bool, rng: &mut Rng) {
     }
 }
 
+/// Trimmed tile list the renderers use for an image whose largest XY extent is `max`
+/// (TileSizesRef::new: leading sizes are dropped while the next one still covers the image)
+fn trimmed(list: &[usize], max: usize) -> &[usize] {
+    let i = list.iter().position(|t| *t < max).unwrap_or(list.len()).saturating_sub(1);
+    &list[i..]
+}
+
+/// Tile-decision traces of the voxel renderer (Trace_Tiles3.tla): the hook events of one render, ordered per thread,
+/// cut into one case per root tile column, coordinates translated to the column's corner; with the reference sign of
+/// the shape at every lattice position of the column.  Cases with a reference value in the rounding band are left out.
+fn tiles3<F: Function + RenderHints + MathFunction + Clone>(cx: &mut Cx, b: &Built, size: (u32, u32, u32), tiles: &[usize], view: Matrix4<f32>, threads: usize, skipped: &mut usize) {
+    use vharness::hooks;
+    let (w, h, d) = size;
+    let shape = Shape::<F>::new(&b.ctx, b.root).unwrap();
+    let cfg = voxel::RenderConfig { image_size: VoxelSize::new(w, h, d), world_to_model: view };
+    let tp = if threads > 0 { Some(pool(threads)) } else { None };
+    let vars = ShapeVars::<f32>::new();
+    let bound = shape.bind(&vars).unwrap();
+    let ecfg = voxel::EvalConfig { tile_sizes: Some(TileSizes::new(tiles).unwrap()), threads: tp.as_ref(), cancel: Default::default() };
+    hooks::install();
+    let _ = hooks::take();
+    let r = vharness::catch(std::panic::AssertUnwindSafe(|| voxel::render(bound, &cfg, &ecfg)));
+    let mut evs = hooks::take();
+    hooks::uninstall();
+    let img = match r { Ok(Some(img)) => img, _ => { *skipped += 1; return; } };
+    let ts = trimmed(tiles, w.max(h) as usize);
+    let t0 = ts[0];
+    let kmax = (d as usize + t0 - 1) / t0;
+    let ztop = kmax * t0;
+    evs.retain(|e| e.name.starts_with("vox_"));
+    evs.sort_by_key(|e| (e.thread, e.seq));
+    let m4 = cfg.mat();
+    let band = 2.0e-5f32;
+    let mut k = 0;
+    while k < evs.len() {
+        assert_eq!(evs[k].name, "vox_root");
+        let (x0, y0) = (hooks::field(&evs[k], "x") as usize, hooks::field(&evs[k], "y") as usize);
+        let th = evs[k].thread;
+        let mut e = k + 1;
+        while e < evs.len() && evs[e].name != "vox_root" && evs[e].thread == th { e += 1; }
+        // reference signs over the column's lattice, VoxSeq order of Render3D.tla (x fastest, then y, then z)
+        let pts: Vec<(f32, f32, f32)> = (0..=ztop).flat_map(|z| (0..t0).flat_map(move |y| (0..t0).map(move |x| ((x0 + x) as f32, (y0 + y) as f32, z as f32)))).collect();
+        let vals = reference(b, &m4, &pts);
+        if vals.iter().any(|v| v.is_nan() || (*v != 0.0 && v.abs() < band)) { *skipped += 1; k = e; continue; }
+        let vox: Vec<u8> = vals.iter().map(|v| (*v < 0.0) as u8).collect();
+        let cw = (w as usize - x0).min(t0);
+        let ch = (h as usize - y0).min(t0);
+        let key = format!("TS_{}|{}|{}|{}", ts.iter().map(|t| t.to_string()).collect::<Vec<_>>().join("_"), cw, ch, d);
+        writeln!(cx.w, "{}", json!({"cfg": key, "e": "reset", "id": cx.id, "vox": vox, "desc": b.desc, "threads": threads})).unwrap();
+        for ev in &evs[k + 1..e] {
+            let f = |n: &str| hooks::field(ev, n);
+            if ev.name == "vox_tile" {
+                writeln!(cx.w, "{}", json!({"cfg": key, "e": "tile", "d": f("d"), "x": f("x") - x0 as i64, "y": f("y") - y0 as i64, "z": f("z"), "s": f("s"), "act": f("act")})).unwrap();
+            } else {
+                writeln!(cx.w, "{}", json!({"cfg": key, "e": "hit", "x": f("x") - x0 as i64, "y": f("y") - y0 as i64, "z": f("z")})).unwrap();
+            }
+        }
+        let mut depth = vec![];
+        for j in 0..ch { for i in 0..cw { depth.push(img[(y0 + j, x0 + i)].depth as i64); } }
+        writeln!(cx.w, "{}", json!({"cfg": key, "e": "end", "depth": depth})).unwrap();
+        cx.id += 1;
+        k = e;
+    }
+}
+
+fn tiles3_cases(cx: &mut Cx, quick: bool, rng: &mut Rng) {
+    let mut skipped = 0usize;
+    // (image size, tile list): root tiles that overhang the image in x / y / z, one to four levels, several root
+    // tile columns, sizes that make the renderer trim the list
+    let confs: [((u32, u32, u32), &[usize]); 10] = [
+        ((8, 8, 8), &[4, 2]), ((8, 8, 16), &[8, 4, 2]), ((4, 4, 7), &[4, 2, 1]), ((7, 5, 6), &[4, 2]), ((16, 16, 12), &[8, 4]),
+        ((8, 8, 12), &[8]), ((6, 6, 9), &[2, 1]), ((16, 8, 16), &[8, 2]), ((4, 4, 8), &[8, 4, 2]), ((12, 12, 8), &[4]),
+    ];
+    let n = if quick { 60 } else { 600 };
+    for k in 0..n {
+        let (size, tl) = confs[k % confs.len()];
+        let b = match k % 4 {
+            0 => voxel_boxes(rng, size),
+            1 => stacked(rng, k),
+            2 => { let n = 1 + rng.below(3); shapes::random_csg3(rng, n, false) }
+            _ => stacked(rng, k + 1),
+        };
+        let mut view = Matrix4::identity();
+        if k % 5 == 3 { view[(0, 3)] = rng.range(-0.3, 0.3); view[(2, 3)] = rng.range(-0.3, 0.3); }
+        let threads = [0usize, 0, 2, 4][k % 4];
+        if k % 2 == 0 { tiles3::<VmFunction>(cx, &b, size, tl, view, threads, &mut skipped); }
+        else { tiles3::<JitFunction>(cx, &b, size, tl, view, threads, &mut skipped); }
+    }
+    eprintln!("raster tiles3: {skipped} cases left out (reference value in the rounding band, or no image)");
+}
+
+/// Tile-decision traces of the 2D renderer (Trace_Tiles2.tla): one case per root tile, see tiles3.
+fn tiles2<F: Function + RenderHints + MathFunction + Clone>(cx: &mut Cx, b: &Built, w: u32, h: u32, tiles: &[usize], view: Matrix3<f32>, perfect: bool, z: f32, threads: usize, skipped: &mut usize) {
+    use vharness::hooks;
+    let shape = Shape::<F>::new(&b.ctx, b.root).unwrap();
+    let cfg = pixel::RenderConfig { image_size: ImageSize::new(w, h), world_to_model: view, pixel_perfect: perfect, z };
+    let tp = if threads > 0 { Some(pool(threads)) } else { None };
+    let vars = ShapeVars::<f32>::new();
+    let bound = shape.bind(&vars).unwrap();
+    let ecfg = pixel::EvalConfig { tile_sizes: Some(TileSizes::new(tiles).unwrap()), threads: tp.as_ref(), cancel: Default::default() };
+    hooks::install();
+    let _ = hooks::take();
+    let r = vharness::catch(std::panic::AssertUnwindSafe(|| pixel::render(bound, &cfg, &ecfg)));
+    let mut evs = hooks::take();
+    hooks::uninstall();
+    let img = match r { Ok(Some(img)) => img, _ => { *skipped += 1; return; } };
+    let ts = trimmed(tiles, w.max(h) as usize);
+    let t0 = ts[0];
+    evs.retain(|e| e.name.starts_with("pix_"));
+    evs.sort_by_key(|e| (e.thread, e.seq));
+    let m4 = mat3_to_4(&cfg.mat());
+    let band = 2.0e-5f32;
+    let mut k = 0;
+    while k < evs.len() {
+        assert_eq!(evs[k].name, "pix_root");
+        let (x0, y0) = (hooks::field(&evs[k], "x") as usize, hooks::field(&evs[k], "y") as usize);
+        let th = evs[k].thread;
+        let mut e = k + 1;
+        while e < evs.len() && evs[e].name != "pix_root" && evs[e].thread == th { e += 1; }
+        // reference signs over the closed root tile, LatSeq order of Render2D.tla (x fastest)
+        let pts: Vec<(f32, f32, f32)> = (0..=t0).flat_map(|y| (0..=t0).map(move |x| ((x0 + x) as f32, (y0 + y) as f32, z))).collect();
+        let vals = reference(b, &m4, &pts);
+        if vals.iter().any(|v| v.is_nan() || (*v != 0.0 && v.abs() < band)) { *skipped += 1; k = e; continue; }
+        let ins: Vec<u8> = vals.iter().map(|v| (*v < 0.0) as u8).collect();
+        let cw = (w as usize - x0).min(t0);
+        let ch = (h as usize - y0).min(t0);
+        let key = format!("TS_{}|{}|{}|{}", ts.iter().map(|t| t.to_string()).collect::<Vec<_>>().join("_"), cw, ch, if perfect { "P" } else { "F" });
+        writeln!(cx.w, "{}", json!({"cfg": key, "e": "reset", "id": cx.id, "ins": ins, "desc": b.desc, "threads": threads})).unwrap();
+        for ev in &evs[k + 1..e] {
+            let f = |n: &str| hooks::field(ev, n);
+            writeln!(cx.w, "{}", json!({"cfg": key, "e": "tile", "d": f("d"), "x": f("x") - x0 as i64, "y": f("y") - y0 as i64, "s": f("s"), "act": f("act")})).unwrap();
+        }
+        let mut pix = vec![];
+        for j in 0..ch { for i in 0..cw { pix.push(img[(y0 + j, x0 + i)].inside() as i64); } }
+        writeln!(cx.w, "{}", json!({"cfg": key, "e": "end", "pix": pix})).unwrap();
+        cx.id += 1;
+        k = e;
+    }
+}
+
+fn tiles2_cases(cx: &mut Cx, quick: bool, rng: &mut Rng) {
+    let mut skipped = 0usize;
+    let confs: [((u32, u32), &[usize]); 10] = [
+        ((8, 8), &[4, 2]), ((16, 16), &[8, 4, 2]), ((7, 5), &[4, 2, 1]), ((16, 12), &[8, 2]), ((24, 24), &[8, 4]),
+        ((12, 9), &[6, 3]), ((16, 16), &[16, 4]), ((8, 8), &[8, 4, 2, 1]), ((10, 10), &[2, 1]), ((8, 8), &[32, 8]),
+    ];
+    let n = if quick { 80 } else { 800 };
+    for k in 0..n {
+        let ((w, h), tl) = confs[k % confs.len()];
+        let b = match k % 3 {
+            0 => { let n = 1 + rng.below(4); shapes::random_csg2(rng, n) }
+            1 => {
+                let rows: Vec<Vec<u8>> = (0..h).map(|_| (0..w).map(|_| (rng.below(3) == 0) as u8).collect()).collect();
+                bitmap_shape(&rows, w, h)
+            }
+            _ => { let n = 1 + rng.below(3); shapes::random_csg3(rng, n, false) }
+        };
+        let view = if k % 3 == 1 { Matrix3::identity() } else { random_view2(rng, k / 3) };
+        let z = if k % 3 == 2 { rng.range(-0.5, 0.5) } else { 0.0 };
+        let perfect = k % 7 == 3;
+        let threads = [0usize, 0, 2, 4][k % 4];
+        if k % 2 == 0 { tiles2::<VmFunction>(cx, &b, w, h, tl, view, perfect, z, threads, &mut skipped); }
+        else { tiles2::<JitFunction>(cx, &b, w, h, tl, view, perfect, z, threads, &mut skipped); }
+    }
+    eprintln!("raster tiles2: {skipped} cases left out (reference value in the rounding band, or no image)");
+}
+
 fn main() {
     let args: Vec<String> = std::env::args().collect();
     let quick = args[3] == "quick";
@@ -494,6 +661,8 @@ fn main() {
     match args[1].as_str() {
         "c06" => c06(&mut cx, &args[2], quick, &mut rng),
         "c07" => c07(&mut cx, &args[2], quick, &mut rng),
+        "tiles3" => tiles3_cases(&mut cx, quick, &mut rng),
+        "tiles2" => tiles2_cases(&mut cx, quick, &mut rng),
         m => panic!("mode {m}"),
     }
     let n = cx.id;
